@@ -89,6 +89,15 @@ CLAIMED.update({
    note="One-pin ports; shape-concrete cell.", design_ref="§4 C09, §9"),
 })
 
+CLAIMED.update({
+ "C04": dict(engine="E1", technique=_LEM,
+   text="Lemma level, bounded: the writer's concatenation/part-select emission kernel denotes exactly the given wires in order under the reader's range semantics, for all lists within the bound. The whole-file round trip is not decided.",
+   note="Recorder stub for the file; replay through real compose+parse.", design_ref="§4 C04, §9"),
+ "C06": dict(engine="E1", technique=_LEM,
+   text="Lemma level, bounded: the reader's range selection returns the selected bits MSB-first for all bounds within the cable; a constant literal is always joined to the constant net of the module being connected. Everything else about the Verilog reader is not decided.",
+   note="Tokenizer stubbed for the constant lemma; replay on a real three-module file.", design_ref="§4 C06, §9"),
+})
+
 NA_REASON = "check not built yet in this round (see DESIGN.md §7 build order); no claim is made"
 
 def main():
